@@ -131,11 +131,22 @@ def expanded_source():
                         REPO.rstrip('/') + '/', tmp + '/'], check=True)
         # rsync -a keeps mtimes and the target dir is shared: refresh them, or cargo may reuse a proc-macro /
         # crate built from ANOTHER tree (e.g. a mutant of pdf_derive) as "fresh"
-        subprocess.run(['find', tmp, '-name', '*.rs', '-exec', 'touch', '{}', '+'], check=False)
-        env = dict(os.environ, RUSTC_BOOTSTRAP='1', CARGO_TARGET_DIR=os.path.join(cache_root, 'expand-target'),
-                   CARGO_NET_OFFLINE='true')
-        p = subprocess.run(['cargo', 'rustc', '--offline', '--lib', '-p', 'pdf', '--', '-Zunpretty=expanded'],
-                           cwd=tmp, env=env, capture_output=True, text=True, timeout=900)
+        # the touch and the build are one critical section: a tree touched WHILE another tree's build is running would
+        # look older than that build's outputs and be served the other tree's proc-macro (seen with parallel mutants)
+        import fcntl
+        lk = open(os.path.join(cache_root, 'expand.lock'), 'w')
+        fcntl.flock(lk, fcntl.LOCK_EX)
+        try:
+            import time
+            time.sleep(1.1)   # mtime granularity: strictly newer than anything the previous holder wrote
+            subprocess.run(['find', tmp, '-name', '*.rs', '-exec', 'touch', '{}', '+'], check=False)
+            env = dict(os.environ, RUSTC_BOOTSTRAP='1', CARGO_TARGET_DIR=os.path.join(cache_root, 'expand-target'),
+                       CARGO_NET_OFFLINE='true')
+            p = subprocess.run(['cargo', 'rustc', '--offline', '--lib', '-p', 'pdf', '--', '-Zunpretty=expanded'],
+                               cwd=tmp, env=env, capture_output=True, text=True, timeout=900)
+        finally:
+            fcntl.flock(lk, fcntl.LOCK_UN)
+            lk.close()
         if p.returncode != 0 or len(p.stdout) < 1000:
             raise Undecided('macro expansion failed: ' + p.stderr[-1500:])
         # keep only the newest few cache files
